@@ -14,8 +14,28 @@ PLAN = {
             "aldy.coverage.Coverage.total",
             "aldy.coverage.Coverage.basic_filter",
             "aldy.coverage.Coverage.quality_filter",
+            "aldy.coverage.Coverage.filtered",
+            "aldy.major._filter_alleles.filter_fns",
+            "aldy.minor.estimate_minor.default_filter_fn",
+            "aldy.solutions.CNSolution.position_cn",
+            "aldy.gene.Gene.region_at",
         ],
         "assumptions": [],
+        "not_decided": [],
+    },
+    "C07": {
+        "functions": [
+            "aldy.coverage.Coverage._normalize_coverage",
+            "aldy.coverage.Coverage.diploid_avg_coverage",
+            "aldy.coverage.Coverage.average_coverage",
+            "aldy.coverage.Coverage.total",
+        ],
+        "assumptions": ["defaultdict(int) zero-insertion on read is not modelled by the VC generator (checked natively by the frame clause)"],
+        "not_decided": [],
+    },
+    "C18": {
+        "functions": ["aldy.profile.Profile.update"],
+        "assumptions": ["str.lower, int(str), float(str) are uninterpreted functions (parses_int / parses_float / str_lower)"],
         "not_decided": [],
     },
 }
